@@ -83,6 +83,15 @@ def handle (req : J) : J :=
           okJ (.arr ((defPaths root []).map fun p =>
             resJ (fun ws => J.arr (ws.map Word.toJ)) (resolveAt env root p diff))))
      | _, _, _ => .str "bad-request")
+  | .arr [.str "expand", fsj, root] =>
+    (match fsj.getArr, root.getStr with
+     | some l, some root =>
+       let fs : FS := l.filterMap (fun e => match e with
+         | .arr [k, v] => (match k.getStr, v.getStr with
+            | some k, some v => some (resolvePath [] k, v) | _, _ => none)
+         | _ => none)
+       resJ (fun os => J.arr (os.map Obj.toJ)) (expand fs (resolvePath [] root))
+     | _, _ => .str "bad-request")
   | _ => .str "bad-op"
 
 partial def loop (h : IO.FS.Stream) (out : IO.FS.Stream) : IO Unit := do
